@@ -2,7 +2,7 @@ import FeatherModel.Lemmas.CodeWriteTerm
 import FeatherModel.Lemmas.CodeWithin
 
 /-!
-# Where `write_code` cannot panic: methods whose worst-case encoding stays below 65533 bytes
+# `write_code` cannot panic (all inputs, since the `fix:` commits 136eeb3, dc41ad9); size bound `maxLen`
 -/
 
 namespace CodeWrite
@@ -29,14 +29,6 @@ def maxLen : Insn → Nat
   | .invokedynamic _ => 5
 
 def maxSize (is : List Insn) : Nat := (is.map maxLen).sum
-
-/-- `high - low + 1` does not overflow `i32` -/
-def rangeOk : Insn → Bool
-  | .tableswitch _ lo hi _ => decide (hi - lo < 2147483647)
-  | _ => true
-
-/-- the domain on which every failure of the code array is a clean error -/
-def noPanicDom (is : List Insn) : Bool := decide (maxSize is ≤ 65533) && is.all rangeOk
 
 theorem padLen_le (p : Nat) : padLen p ≤ 3 := by unfold padLen; omega
 
@@ -162,28 +154,26 @@ theorem argsSize_no_panic (desc : JStr) : argsSize desc ≠ .error .panic := by
   · exact argsLoop_no_panic _ _ _
   · simp
 
-theorem encInsn_no_panic {isWide : Bool} {lbl : Nat → Option Nat} {p k : Nat} {i : Insn}
-    (hp : p + maxLen i ≤ 65533 + 5) (hr : rangeOk i = true) : encInsn isWide lbl p k i ≠ .error .panic := by
+theorem encInsn_no_panic {isWide : Bool} {lbl : Nat → Option Nat} {p k : Nat} {i : Insn} :
+    encInsn isWide lbl p k i ≠ .error .panic := by
   cases i with
   | ifc c t =>
-    simp only [maxLen] at hp
-    have : ¬ p + 3 > 65535 := by omega
     simp only [encInsn, encIf]
     split
     · split
       · simp
-      · simp
+      · split <;> simp
     · split
-      · simp
+      · split <;> simp
       · simp
   | tableswitch d lo hi tb =>
-    simp only [rangeOk, decide_eq_true_eq] at hr
-    have : ¬ hi - lo ≥ 2147483647 := by omega
-    simp only [encInsn, encTableSwitch, this, if_false]
+    simp only [encInsn, encTableSwitch]
     intro h
     split at h
     · cases h
-    · split at h <;> cases h
+    · split at h
+      · cases h
+      · split at h <;> cases h
   | lookupswitch d ps =>
     simp only [encInsn, encLookupSwitch]
     split <;> simp
@@ -208,13 +198,11 @@ theorem encInsn_no_panic {isWide : Bool} {lbl : Nat → Option Nat} {p k : Nat} 
   | _ => simp [encInsn]
 
 theorem pass_no_panic (wide : List Nat) (is : List Insn) :
-    ∀ (s : St), s.w.size + maxSize is ≤ 65533 → is.all rangeOk = true → pass wide is s ≠ .error .panic := by
+    ∀ (s : St), pass wide is s ≠ .error .panic := by
   induction is with
-  | nil => intro s _ _; simp [pass]
+  | nil => intro s; simp [pass]
   | cons i is ih =>
-    intro s hsz hr
-    simp only [maxSize, List.map_cons, List.sum_cons] at hsz
-    simp only [List.all_cons, Bool.and_eq_true] at hr
+    intro s
     simp only [pass]
     cases hst : step wide i s with
     | error e =>
@@ -228,22 +216,15 @@ theorem pass_no_panic (wide : List Nat) (is : List Insn) :
       · split at hst
         · rename_i e' henc
           cases hst
-          exact encInsn_no_panic (by simp only at hsz; omega) hr.1 henc
+          exact encInsn_no_panic henc
         · cases hst
     | ok s1 =>
       simp only []
-      obtain ⟨_, r, henc, rfl⟩ := step_ok hst
-      have hl := encInsn_len henc
-      apply ih _ _ hr.2
-      have e : (s.w ++ r.1).size = s.w.size + r.1.length := by
-        rw [← Array.length_toList, Array.toList_appendList, List.length_append, Array.length_toList]
-      simp only [e, maxSize]
-      omega
+      exact ih _
 
-/-- on `noPanicDom` every failure of `write_code`'s code array is the explicit error -/
-theorem write_no_panic (is : List Insn) (hd : noPanicDom is = true) :
+/-- every failure of `write_code`'s code array is the explicit error (since 136eeb3, dc41ad9: all inputs) -/
+theorem write_no_panic (is : List Insn) :
     ∀ (fuel : Nat) (wide : List Nat), write is fuel wide ≠ .panic := by
-  simp only [noPanicDom, Bool.and_eq_true, decide_eq_true_eq] at hd
   intro fuel
   induction fuel with
   | zero => intro wide; simp [write]
@@ -254,7 +235,7 @@ theorem write_no_panic (is : List Insn) (hd : noPanicDom is = true) :
     | error e =>
       cases e with
       | err => simp
-      | panic => exact absurd hs (pass_no_panic wide is St.init (by simp [St.init]; exact hd.1) hd.2)
+      | panic => exact absurd hs (pass_no_panic wide is St.init)
     | ok s =>
       simp only []
       cases resolve (labelPos s.pos s.w.size) s.unw.toList s.w with
